@@ -303,7 +303,8 @@ def run_preger(prog, run, I):
             ck.eq("R-post", "fs restored", a.get("fs"), pre["_initial_fs"], "fs after rollback")
             ck.eq("R-post", "dt restored", a.get("dt"), inv(pre["_initial_fs"]), "dt after rollback")
             ck.eq("R-post", "Ndats restored", elem(a.get("Ndats")), D(0, n=1), "Ndats after rollback")
-            ck.eq("R-post", "datasets restored (content of the initial copy)", elem(a.get("datasets")), elem(pre["_initial_datasets"]), "datasets after rollback")
+            # (content: how many times the arrays were copied on the way - the formal factor k - plays no part; distinctness is R-no-alias)
+            ck.eq("R-post", "datasets restored (content of the initial copy)", _no_copies(elem(a.get("datasets"))), _no_copies(elem(pre["_initial_datasets"])), "datasets after rollback")
             ck.ne("R-no-alias", "live datasets are not the stored initial copy", elem(a.get("datasets")), elem(a.get("_initial_datasets")), "datasets vs _initial_datasets after rollback")
 
 
@@ -527,6 +528,13 @@ def frame_rule(prog, run):
                             bad.append(astq.src(n, 50))
             run.ob("R-post", m.qual, "assigns no sampling attribute (frame condition)", not bad,
                    "only data/datasets are assigned" if not bad else f"{name} also assigns {bad}", witness=";".join(bad)[:90], file=f, node=m.node)
+
+
+def _no_copies(v):
+    """v without the formal copy factor k"""
+    if isinstance(v, Deg):
+        return Deg(frozenset(tuple((s_, e_) for s_, e_ in m if s_ != "k") for m in v.sup), v.rank)
+    return v
 
 
 def check(prog, run):
